@@ -38,6 +38,18 @@ CLAIMED = {
  "C16": dict(
    text="Proof for all disassembly texts (the text is a ghost sequence of arbitrary strings delivered by the scanner): (a) totality: every automatically generated no-panic obligation of Parse, parseX86_64, findSyscallNum, lastInstruction, isRawSyscall, isFunctionCall, isSyscallFunction, ExtractSyscalls (string slicing, fields[i], matches[i], nil derefs) is discharged with no precondition on the text; both loops have proved decreases clauses; (b) scanner error => non-nil error and no result; (c) function scope: loop invariant 'every element of the instruction window is a line after the last TEXT marker', findSyscallNum/parseX86_64 only take Assembly from that window, asserted at the append; (d) every reported (Num, Name) is an entry of the table; (e) the result list is append-only within a run.",
    note="Trusted: library contracts in spec/io.spec (bufio.Scanner delivers the ghost lines, Err() non-nil exactly when it stopped early; strings.Fields/Contains/HasPrefix, regexp.FindStringSubmatch returns a substring match). Regular expressions are uninterpreted. Monotonicity across texts (appending functions never removes results) follows from (e) + the reset of the window at TEXT + determinism by a fold argument that is not machine-checked; the replay family exercises it.", technique=TECH, ref="7 C16"),
+ "C08": dict(
+   text="Proof of the hand-over clause only: sockFilter copies Op/Jt/Jf/K of every raw instruction (loop invariant), at the seccomp call the SockFprog has Len == len(sockFilter) == number of compiled instructions with no uint16 truncation (automatic safe:trunc obligation) and Filter points at element 0, each element being the encoding of the compiled instruction at the same index; composed with C01-C05 the array the kernel reads encodes a program whose meaning is the policy's decision. That the running kernel then decides accordingly is NOT decided by contracts: it is the axiom K-run (no probe syscalls are issued by this check).",
+   note=KNOTE+" The first sentence of the property (decisions of the running kernel for probe syscalls) is an assumption, not a proved clause.", technique=TECH, ref="7 C08"),
+ "C09": dict(
+   text="Proof against the ghost kernel model: LoadFilter returns nil only if the seccomp call returned (0, errno 0), in which case the filter is attached to the calling thread and, with TSYNC, to all threads; every refusal (errno, or positive thread id of a refused thread-sync) yields a non-nil error and leaves the attachment state unchanged; if the seccomp call is not reached (policy or encoding error) no prctl has succeeded and nothing is attached; Supported performs exactly one seccomp(STRICT, flags != 0) call which changes no state.",
+   note=KNOTE+" What the kernel actually does in each situation is the model, not a theorem.", technique=TECH+"; ghost process state (threads, no_new_privs, attachment)", ref="7 C09"),
+ "C10": dict(
+   text="Proof of the code-side clauses: exactly one seccomp(2) call on success, with op == SECCOMP_SET_MODE_FILTER and the flag word equal to zero_extend(filter.Flag) (no masking, reordering or constant), FilterFlagTSync == 1 and FilterFlagLog == 2 (ground, C19); success is recognised correctly (refused thread-sync is an error); without TSYNC exactly the calling thread is attached. That TSYNC reaches every running, blocked or nascent thread under every interleaving is the axiom K-seccomp-filter (single atomic system call): the `schedules` quantifier is discharged by that axiom, not by exploration.",
+   note=KNOTE, technique=TECH+"; ghost process state", ref="7 C10"),
+ "C11": dict(
+   text="Proof under R-sched (the current OS thread is havocked before every system call unless the goroutine is locked): NoNewPrivs requested => at the seccomp call the bit is set on the installing thread (assert nnp_before_install), hence an unprivileged valid load succeeds; not requested => no prctl at all and the bit map is unchanged; not requested, unprivileged, bit clear => error and nothing attached. Deferred UnlockOSThread is executed by the symbolic executor at every return.",
+   note=KNOTE+" Whether the Go scheduler really migrates between the calls is not decided (R-sched over-approximates all schedules).", technique=TECH+"; ghost thread-affinity state", ref="7 C11"),
 }
 NA_REASON = "check not built yet (work in progress; DESIGN.md section 7 describes the planned contracts)"
 
